@@ -11,7 +11,18 @@ COMMON_TRUSTED = [
     "amh + check (harness, canonicalisation, differ, oracle) — /verif/harness, /verif/check",
 ]
 
+MODEL_TRUSTED = [
+    "modelled, not verified: std HashMap as a keep-first association list; Box address stability (addr is a field of the cell); user loaders as deterministic Prog terms; the harness's MemSource as Model/MemSource.lean",
+]
+
 PROPS = {
+    "C03": {
+        "modules": ["AmVerif.Props.C03"],
+        "engines": [{"name": "load", "quick": 45, "thorough": 1500}],
+        "rule": "cases 0-11 enumerate, for each of the 12 asset types M<e,d> (6 extension lists incl. [] and [\"\"], default_value present or not), EVERY assignment of {absent, unreadable(kind), undecodable, ok} to the declared extensions, each followed by contains / get_cached / repair / retry; later cases: random blocks with odd ids (root, nested, unicode, spaces), compounds nested 1-4 deep over failing assets (error wrapping), source-read faults at each read index; contents delivered as Buffer / Owned / Slice; non-trivial = at least one load executed; distinct = distinct op/result transcripts",
+        "trusted": COMMON_TRUSTED + MODEL_TRUSTED + ["not modelled: FileContent::with_cow (three variants hand over the same bytes) — exercised by the correspondence only"],
+        "assumptions": ["loaders are deterministic functions of the bytes and extension they are handed"],
+    },
     "C18": {
         "modules": ["AmVerif.Props.C18"],
         "engines": [{"name": "rid", "quick": 60, "thorough": 2000}],
